@@ -1,6 +1,7 @@
 """C04 (Verilog) and C18 (EBLIF), narrow claims: the text written is accepted by the reader —
 delimiter balance, token / directive / category agreement, metadata-key agreement, per-iteration updates."""
 import ast
+import re
 
 from ..core import AnalysisError, norm, short, walk_local, parent_chain, reaching_assign
 from ..cfg import cfg_of, node_exprs
@@ -372,6 +373,23 @@ def check_c04(ctx, R):
     n5 += _position_counters(ctx, R, B.cls, "B5'", 0)
     R.count("per-iteration update sites (B5')", n5)
     R.floor("per-iteration update sites (B5')", 1)
+    # B7': named and positional port maps place a connection on the port the same way (the writer always writes named maps, so
+    # whatever the positional reader does differently cannot be written back)
+    R.rule("B7'", "the port-map readers agree: how wires meet pins (pin order, low-end offset) is the same for named and positional maps")
+    sk = _connect_skeletons(P)
+    R.count("wire-to-pin connection loops in the Verilog reader (B7')", len(sk))
+    R.floor("wire-to-pin connection loops in the Verilog reader (B7')", 1)
+    sk = [x for x in sk if x[3] is not None]
+    if len(sk) >= 2:
+        ref_f, ref_lp, ref_txt, ref_al = sk[0]
+        for f_, lp_, txt, al in sk[1:]:
+            if al == ref_al:
+                R.ok("B7'", "%s places connections like %s (%s end of the port)" % (f_.qualname, ref_f.qualname, al), f_.loc(lp_))
+            else:
+                R.bad("B7'", "%s|differs from %s" % (f_.key, ref_f.qualname), f_.loc(lp_),
+                      "%s and %s place the wires of a connection on the pins of a port differently (`%s` vs `%s`): a connection narrower than its port "
+                      "lands on other bits depending on whether the port map is named or positional, and the writer can only write one of the two"
+                      % (f_.qualname, ref_f.qualname, txt[:120], ref_txt[:120]))
     R.rule("B6'", "bit ranges: bounds go through the wire-to-bit-index function and belong to the cable whose name is written")
     n6 = _bit_ranges(R, B.cls, "B6'")
     R.count("range emissions (B6')", n6)
@@ -591,3 +609,133 @@ def check_c18(ctx, R):
                       "(or the read runs off the end of the bus)" % (f.qualname, lst_, idx, norm(use)))
     R.count("grow-then-index sites (B7)", n7)
     R.floor("grow-then-index sites (B7)", 4)
+    # B8: a bit reference `name[index]` is split once into (name, index); wherever the two halves are handed on side by side they
+    # are the halves of the same reference
+    R.rule("B8", "name / index pairs stay together: adjacent (name, index) arguments come from the same split of one bit reference")
+    n8 = 0
+    for f in pars.all_funcs():
+        fams = {}
+        for a in walk_local(f.node):
+            if isinstance(a, ast.Assign) and len(a.targets) == 1 and isinstance(a.targets[0], ast.Tuple) and len(a.targets[0].elts) == 2 \
+                    and all(isinstance(e, ast.Name) for e in a.targets[0].elts) and isinstance(a.value, ast.Call):
+                fams[id(a)] = a
+
+        def part(e, at, depth=0):
+            """(family assign, position 0/1) the expression stands for, through `x = int(x)`-style rebinding"""
+            while isinstance(e, ast.Call) and norm(e.func) in ("int", "str") and e.args:
+                e = e.args[0]
+            if not isinstance(e, ast.Name) or depth > 4:
+                return None
+            ra = reaching_assign(at, e.id, unpack=True)
+            if ra is None:
+                return None
+            if id(ra) in fams:
+                names = [x.id for x in ra.targets[0].elts]
+                return (ra, names.index(e.id)) if e.id in names else None
+            if isinstance(ra.targets[0], ast.Name):
+                return part(ra.value, ra, depth + 1)
+            return None
+        for c in walk_local(f.node):
+            if not (isinstance(c, ast.Call) and isinstance(c.func, ast.Attribute) and norm(c.func.value) == "self" and len(c.args) >= 2):
+                continue
+            st = c
+            while not isinstance(st, ast.stmt):
+                st = getattr(st, "_parent")
+            parts = [part(a, st) for a in c.args]
+            for k in range(len(parts) - 1):
+                p0, p1 = parts[k], parts[k + 1]
+                if p0 is None or p1 is None or p0[1] != 0 or p1[1] != 1:
+                    continue
+                if norm(p0[0].value.func) != norm(p1[0].value.func):
+                    continue  # halves of different kinds of split
+                n8 += 1
+                if p0[0] is p1[0]:
+                    R.ok("B8", "%s: `%s`, `%s` are the two halves of one reference" % (f.qualname, norm(c.args[k]), norm(c.args[k + 1])), f.loc(c))
+                else:
+                    R.bad("B8", "%s|%s(%s, %s)" % (f.key, c.func.attr, norm(c.args[k]), norm(c.args[k + 1])), f.loc(c),
+                          "%s passes the name of one bit reference (`%s`, from `%s`) together with the index of another (`%s`, from `%s`): the bit that is "
+                          "connected is not the one the text names" % (f.qualname, norm(c.args[k]), short(p0[0].value, 40), norm(c.args[k + 1]), short(p1[0].value, 40)))
+    R.count("name/index argument pairs (B8)", n8)
+    R.floor("name/index argument pairs (B8)", 4)
+
+
+def _connect_skeletons(P):
+    """[(func, loop, canonical text)] for the loops of the Verilog reader that connect the wires of a port-map expression to the pins of
+    an instance port: the statements of the enclosing block that decide which pin each wire meets (sorting of the pin list, offset,
+    the connect itself), with the local names replaced by roles"""
+    out = []
+    mod = P.module(VP)
+    for f in mod.all_funcs():
+        # the readers of instance port maps: they parse a connection expression and order the pins most-significant first
+        if not any(isinstance(c, ast.Call) and isinstance(c.func, ast.Attribute) and c.func.attr == "parse_cable_concatenation" for c in walk_local(f.node)) or \
+                not any(isinstance(c, ast.Call) and isinstance(c.func, ast.Attribute) and c.func.attr == "sort"
+                        and any(k.arg == "reverse" and isinstance(k.value, ast.Constant) and k.value.value is True for k in c.keywords) for c in walk_local(f.node)) or \
+                not any(isinstance(x, ast.Attribute) and "instance" in x.attr for x in walk_local(f.node)):
+            continue
+        for lp in walk_local(f.node):
+            if not isinstance(lp, ast.For):
+                continue
+            conn = [c for st in lp.body for c in ast.walk(st) if isinstance(c, ast.Call) and isinstance(c.func, ast.Attribute) and c.func.attr == "connect_pin" and c.args]
+            if len(conn) != 1:
+                continue
+            c = conn[0]
+            roles = {}
+            if isinstance(c.args[0], ast.Subscript) and isinstance(lp.target, ast.Name):
+                pins = norm(c.args[0].value)
+                wires = norm(c.func.value.value) if isinstance(c.func.value, ast.Subscript) else norm(c.func.value)
+                idx_names = {x.id for x in ast.walk(c.args[0].slice) if isinstance(x, ast.Name)} - {lp.target.id}
+                roles = {pins: "P", wires: "W", lp.target.id: "i"}
+            elif isinstance(c.args[0], ast.Name) and isinstance(lp.target, ast.Tuple) and isinstance(lp.iter, ast.Call) and norm(lp.iter.func) == "zip" \
+                    and len(lp.iter.args) == len(lp.target.elts):
+                tnames = [norm(t) for t in lp.target.elts]
+                if norm(c.args[0]) not in tnames or norm(c.func.value) not in tnames:
+                    continue
+                pins = norm(lp.iter.args[tnames.index(norm(c.args[0]))])
+                wires = norm(lp.iter.args[tnames.index(norm(c.func.value))])
+                idx_names = set()
+                roles = {pins: "P", wires: "W", norm(c.args[0]): "p", norm(c.func.value): "w"}
+            else:
+                continue
+            par = getattr(lp, "_parent", None)
+            blk = next((getattr(par, fld) for fld in ("body", "orelse") if lp in getattr(par, fld, [])), None)
+            if blk is None:
+                continue
+            for k, nme in enumerate(sorted(idx_names)):
+                roles[nme] = "o%d" % k
+            keep = []
+            for st in blk[:blk.index(lp) + 1]:
+                txt = norm(st)
+                mentions = any(re.search(r"(?<![\w.])%s(?![\w])" % re.escape(n_), txt) for n_ in list(idx_names) + [pins])
+                if st is lp or (mentions and (isinstance(st, (ast.If, ast.Assign, ast.AugAssign)) or (isinstance(st, ast.Expr) and ".sort(" in txt))):
+                    if isinstance(st, ast.Assign) and isinstance(st.targets[0], ast.Name) and st.targets[0].id == pins.split(".")[0] and st is not lp:
+                        continue  # where the pin list comes from differs legitimately (named vs positional)
+                    for n_ in sorted(roles, key=len, reverse=True):
+                        txt = re.sub(r"(?<![\w.])%s(?![\w])" % re.escape(n_), roles[n_], txt)
+                    keep.append(txt)
+            # abstract alignment: with the pins ordered most-significant first, wire k meets pin k ("high": the connection sits at the top of
+            # the port) or pin k + (len(P) - len(W)) ("low": at the bottom); None when the form is not one of those
+            def offset_is_low(name):
+                defs = [a for a in walk_local(f.node) if isinstance(a, ast.Assign) and len(a.targets) == 1 and norm(a.targets[0]) == name]
+                diff = [a for a in defs if isinstance(a.value, ast.BinOp) and isinstance(a.value.op, ast.Sub)
+                        and norm(a.value.left) == "len(%s)" % pins and norm(a.value.right) == "len(%s)" % wires]
+                zero = [a for a in defs if isinstance(a.value, ast.Constant) and a.value.value == 0]
+                return bool(diff) and len(diff) + len(zero) == len(defs)
+            align = None
+            if isinstance(c.args[0], ast.Subscript):
+                ix = c.args[0].slice
+                if isinstance(ix, ast.Name) and ix.id == lp.target.id:
+                    align = "high"
+                elif isinstance(ix, ast.BinOp) and isinstance(ix.op, ast.Add) and {type(ix.left), type(ix.right)} == {ast.Name}:
+                    others = [x.id for x in (ix.left, ix.right) if x.id != lp.target.id]
+                    if len(others) == 1 and offset_is_low(others[0]):
+                        align = "low"
+            else:
+                parg = lp.iter.args[tnames.index(norm(c.args[0]))]
+                if isinstance(parg, ast.Name):
+                    align = "high"
+                elif isinstance(parg, ast.Subscript) and isinstance(parg.slice, ast.Slice) and parg.slice.upper is None and isinstance(parg.slice.lower, ast.Name) \
+                        and offset_is_low(parg.slice.lower.id):
+                    align = "low"
+                    pins = norm(parg.value)
+            out.append((f, lp, " ; ".join(keep), align))
+    return out
